@@ -156,6 +156,7 @@ package pipeline
 //@   ensures held(b.mu)
 //@   ensures result == b.batch && result != nil && result.maxSizeCount >= 0 && result.maxSizeBytes >= 0
 //@   ensures b.outSeq == old(b.outSeq)
+//@   ensures old(b.batch) != nil ==> result == old(b.batch) && len(result.events) == old(len(b.batch.events)) && result.startTime.wall == old(b.batch.startTime.wall) && result.startTime.ext == old(b.batch.startTime.ext)
 //@   ensures result.maxSizeCount != 0 ==> len(result.events) < result.maxSizeCount
 //@   ensures result.maxSizeBytes != 0 ==> result.eventsSize < result.maxSizeBytes
 //@   callee chanrecv:freeBatches() (v)
@@ -185,10 +186,22 @@ package pipeline
 //@     requires v.maxSizeBytes != 0 ==> v.eventsSize - lastSize < v.maxSizeBytes
 //@     requires v.seq == old(b.outSeq) && v.seq >= 0
 
+// Bounded staleness (C08): the flush clock of a batch that already holds events
+// is not restarted by a later Add - its age is counted from before its first
+// event (reset, when the batch is taken from the pool), so a trickle of events
+// cannot postpone the time-out flush.
+
 //@ func (*Batcher).Add
 //@   requires event != nil && event.Size >= 0
 //@   bind trySendBatchAndUnlock lastSize := event.Size
 //@   ensures !held(b.mu)
+//@   ghost gcnt int = 0
+//@   ghost gwall int = 0
+//@   ghost gext int = 0
+//@   setat "batch := b.getBatch()" gcnt := ite(b.batch == nil, 0, len(b.batch.events))
+//@   setat "batch := b.getBatch()" gwall := b.batch.startTime.wall
+//@   setat "batch := b.getBatch()" gext := b.batch.startTime.ext
+//@   assert at "b.trySendBatchAndUnlock(batch)" gcnt > 0 ==> batch.startTime.wall == gwall && batch.startTime.ext == gext
 
 //@ func (*Batcher).heartbeat
 //@   bind trySendBatchAndUnlock lastSize := 0
